@@ -2,6 +2,7 @@ package rcall
 
 import (
 	"github.com/modernizing/coca/pkg/domain/core_domain"
+	"strings"
 )
 
 type RCallGraph struct {
@@ -85,7 +86,7 @@ func (c RCallGraph) BuildRCallChain(funcName string, methodMap map[string][]stri
 			if funcName == child {
 				continue
 			}
-			newCall := "\"" + child + "\" -> \"" + funcName + "\";\n"
+			newCall := "\"" + escapeStr(child) + "\" -> \"" + escapeStr(funcName) + "\";\n"
 			arrayResult = arrayResult + newCall
 		}
 
@@ -93,4 +94,8 @@ func (c RCallGraph) BuildRCallChain(funcName string, methodMap map[string][]stri
 
 	}
 	return "\n"
+}
+
+func escapeStr(name string) string {
+	return strings.ReplaceAll(name, "\"", "\\\"")
 }
